@@ -125,6 +125,7 @@ Section Norm.
 Variable bin_prec : list (N * N).
 Variable un_prec : N.
 Variable op_receive op_pointer : N.
+Variable expanded : bool.   (* ast.expandedPrint: the elements of a composite literal are printed *)
 
 Notation np_un := (np_un bin_prec un_prec op_receive).
 Notation np_bin := (np_bin bin_prec un_prec).
@@ -250,14 +251,16 @@ Fixpoint need (ty : bool) (e : ex) : nat :=
   | XTypeAssert _ x t => (need ty x + fullo (full true) t)%nat
   | XCompLit _ t kvs =>
     (match t with Some t' => need ty t' | None => 0 end +
-     fold_right (fun (kv : option ex * ex) acc =>
-                   S (match fst kv with Some k => full false k | None => 0 end + full false (snd kv) + acc)) 3%nat kvs)%nat
+     if expanded then
+       fold_right (fun (kv : option ex * ex) acc =>
+                     S (match fst kv with Some k => full false k | None => 0 end + full false (snd kv) + acc)) 3%nat kvs
+     else 3)%nat
   | XMap _ k v => (fullo (full true) k + full true v)%nat
   | XSlice _ e' => full true e'
   | XArray _ l e' => (fullo (full false) l + full true e')%nat
   | XChan _ _ e' => full true e'
   | XFunc _ _ ps rs _ =>
-    (8 + plist ps + plist rs + match rs with [(None, Some t)] => full true t | _ => 0 end)%nat
+    (8 + plist ps + match rs with [(None, Some t)] => full true t | _ => plist rs end)%nat
   | XStruct _ fs => (3 + fold_right (fun (fd : field) acc => (4 + full true (snd (fst fd)) + acc)%nat) 0%nat fs)%nat
   | XDefault _ l r => (need ty l + full false r)%nat
   | _ => 0%nat
